@@ -1,0 +1,15 @@
+//go:build verif
+
+package build
+
+import "io/fs"
+
+// Wrapper for the C11 verification harness (/verif/harness/cmd/c11). Wrapper only.
+
+func VerifReadReleaseData(fsys fs.FS) (id, name, versionID string, err error) {
+	d, err := readReleaseData(fsys)
+	if err != nil {
+		return "", "", "", err
+	}
+	return d.ID, d.Name, d.VersionID, nil
+}
